@@ -56,7 +56,7 @@ for _i in range(8):            # ints 0..7 -> vids 20..27?  keep 20..26 for ints
 for _i in range(1, 6):         # requeue counters "1".."5" -> 31..35
     VALUES[30 + _i] = (str(_i), "str", "intlike")
 
-NAMES = ["a", "b", "c", "_retries", "max_retries", "retry_on_error", "X-Taskiq-requeue", "timeout"]
+NAMES = ["a", "b", "_c", "_retries", "max_retries", "retry_on_error", "X-Taskiq-requeue", "timeout"]
 
 
 def vals_table() -> List[Dict[str, str]]:
@@ -266,14 +266,23 @@ def run(scn: Dict[str, Any]) -> List[Dict[str, Any]]:
                 return f"g{env.idn}"
             b.id_generator = idgen
         b1.result_backend = RecBackend(env)
-        for idx, spec in enumerate(cfg["mws"], start=1):
-            mw = make_send_mw(env, idx, spec)
-            b1.add_middlewares(mw)
-        b1.add_middlewares(ObsMw(env))
+        send_mws = [make_send_mw(env, idx, spec) for idx, spec in enumerate(cfg["mws"], start=1)]
+        if send_mws:
+            b1.add_middlewares(send_mws[0])               # both registration styles, one after the other
+            if len(send_mws) > 1:
+                b1.with_middlewares(*send_mws[1:])
+        b1.with_middlewares(ObsMw(env))
         if cfg["retry"]["on"]:
-            b1.add_middlewares(SimpleRetryMiddleware(
-                default_retry_count=cfg["retry"]["defcount"], default_retry_label=cfg["retry"]["deflabel"],
-                no_result_on_retry=cfg["retry"]["nores"]))
+            retry_cls: Any = SimpleRetryMiddleware
+            if cfg["retry"]["defcount"] % 2 == 1:
+                class ProjectRetry(SimpleRetryMiddleware):        # a project's own subclass: on_error is inherited
+                    pass
+                retry_cls = ProjectRetry
+            retry_mw = retry_cls(default_retry_count=cfg["retry"]["defcount"], default_retry_label=cfg["retry"]["deflabel"],
+                                 no_result_on_retry=cfg["retry"]["nores"])
+            if cfg["retry"]["deflabel"]:
+                RecBroker(env, 3).add_middlewares(retry_mw)       # the instance served another broker before (broker factory called twice)
+            b1.add_middlewares(retry_mw)
         decl = {d["n"]: VALUES[d["v"]][0] for d in cfg["decl"]}
 
         async def t(x: int, y: str = "k", ctx: Context = TaskiqDepends()) -> Any:
@@ -309,9 +318,12 @@ def run(scn: Dict[str, Any]) -> List[Dict[str, Any]]:
         def snap() -> None:
             env.rec("decl", lab=lab_view(task.labels))
 
-        async def do_kiq(kicker_or_task: Any) -> None:
+        async def do_kiq(kicker_or_task: Any, bad: bool = False) -> None:
             try:
-                await kicker_or_task.kiq(5, y="z")
+                if bad:
+                    await kicker_or_task.kiq(lambda: 5, y="z")       # an argument no bundled serializer can encode
+                else:
+                    await kicker_or_task.kiq(5, y="z")
                 env.rec("kiqret", s="ok")
             except SendTaskError:
                 env.rec("kiqret", s="SendTaskError")
@@ -353,6 +365,13 @@ def run(scn: Dict[str, Any]) -> List[Dict[str, Any]]:
                 env.rec("kiq", k=op[1], ok=not op[2])
                 env.kick_fail = bool(op[2])
                 loop.run_coro(do_kiq(kickers[op[1]]))
+            elif name == "kiqbad":
+                if op[1] not in kickers:
+                    env.rec("noop")
+                    snap()
+                    continue
+                env.rec("kiq", k=op[1], ok=False, s="noser")
+                loop.run_coro(do_kiq(kickers[op[1]], bad=True))
             elif name == "tkiq":
                 env.rec("kiq", k=0, ok=not op[1])
                 env.kick_fail = bool(op[1])
